@@ -70,3 +70,12 @@ package gomatrixserverlib
 //@   loop 3: invariant 0 <= idx(3) && idx(3) <= len(notificationLevelChecks)
 //@   loop 3: invariant forall j int :: 0 <= j && j < idx(3) ==> (notificationLevelChecks[j].old == notificationLevelChecks[j].new || (notificationLevelChecks[j].new <= senderLevel && notificationLevelChecks[j].old < senderLevel))
 //@   assigns nothing
+
+//@ func checkPowerLevelEventV3
+//@   property C08
+//@   requires createEvent != nil
+//@   ensures notifications-new: err == nil ==> (forall n string :: n in newPowerLevels.Notifications ==> levelOK(UL(oldPowerLevels, sender), NL(oldPowerLevels, n), NL(newPowerLevels, n)))
+//@   ensures notifications-old: err == nil ==> (forall n string :: n in oldPowerLevels.Notifications ==> levelOK(UL(oldPowerLevels, sender), NL(oldPowerLevels, n), NL(newPowerLevels, n)))
+//@   ensures no-creator-sender: err == nil ==> !(string(createEvent.SenderID()) in newPowerLevels.Users)
+//@   ensures no-additional-creator: err == nil ==> (forall i int :: 0 <= i && i < nAdditionalCreators(createEvent) ==> !(additionalCreatorAt(createEvent, i) in newPowerLevels.Users))
+//@   loop 1: invariant forall u string :: seen(1)[u] ==> (u != string(createEvent.SenderID()) && (forall i int :: 0 <= i && i < nAdditionalCreators(createEvent) ==> additionalCreatorAt(createEvent, i) != u))
